@@ -129,11 +129,13 @@ func verifGlueAnalyze(m *ai.MinimaxAI, ctx context.Context, p *tak.Position) ([]
 	if r == nil {
 		return m.Analyze(ctx, p)
 	}
+	// the first consultation is expected on the position GetMove was called on, later ones on the
+	// position before the newest of the record
 	which := "other"
 	switch {
-	case p == r.p:
+	case len(r.Obs) == 0 && p == r.p:
 		which = "p"
-	case len(r.g.Positions) >= 2 && p == r.g.Positions[len(r.g.Positions)-2]:
+	case len(r.Obs) > 0 && len(r.g.Positions) >= 2 && p == r.g.Positions[len(r.g.Positions)-2]:
 		which = "prev"
 	}
 	r.add("chk:" + which)
@@ -202,6 +204,7 @@ type VerifGlue struct {
 	T     *Taktician
 	G     *bot.Game
 	Setup []string // commands sent outside GetMove (greetings, level replies)
+	All   []*tak.Position // every position that ever was in the record, in order of creation
 
 	rec        *VerifGlueRec
 	stubAnswer tak.Move
@@ -235,6 +238,7 @@ func VerifNewGlueFriendly(variant string, color tak.Color, size int, level int, 
 	}
 	v.F = f
 	v.G = verifGlueGame(color, size, f.Config(size))
+	v.All = append(v.All, v.G.Positions[0])
 	f.NewGame(v.G)
 	if level >= 0 {
 		f.HandleTell(VerifGlueOpponent, "level "+strconv.Itoa(level))
@@ -257,6 +261,7 @@ func VerifNewGlueTaktician(limit time.Duration, useOpponentTime, book bool, dept
 	}
 	v.T = t
 	v.G = verifGlueGame(color, size, tak.Config{Size: size})
+	v.All = append(v.All, v.G.Positions[0])
 	t.NewGame(v.G)
 	if realAI {
 		t.ai = &verifGlueSpy{v: v, inner: t.ai}
@@ -301,6 +306,7 @@ func (v *VerifGlue) Push(m tak.Move) error {
 	}
 	v.G.Positions = append(v.G.Positions, next)
 	v.G.Moves = append(v.G.Moves, m)
+	v.All = append(v.All, next)
 	return nil
 }
 
